@@ -1,21 +1,85 @@
 (* C12 - the property theorems, nothing else.  Each is closed by [exact] of a lemma proved in Replay/*.v
    and followed by Print Assumptions. *)
-From Icv Require Import Base.Tac Replay.RlBytes Replay.RlModel Replay.RlBytesProofs Replay.RlProofs Replay.RlObs Replay.RlOracleProofs.
+From Icv Require Import Base.Tac Replay.RlBytes Replay.RlModel Replay.RlBytesProofs Replay.RlProofs Replay.RlHistory Replay.RlHistoryProofs Replay.RlObs Replay.RlOracleProofs.
 From Coq Require Import Sorting.Sorted.
 Local Open Scope Z_scope.
 
-(* After Reconnect e (ReplayLog) the messages sent to e are exactly the persisted entries - of all files present and
-   of current - with timestamp > e's confirmed position whose object e's zone may see, in log (= timestamp) order,
-   and the replay loop reaches its final pass; premises: persisted timestamps strictly increase, and every rotated
-   file is named after a time later than all its entries (what RotateLogFile's naming gives under a monotone clock).
-   ReplayLog itself applies no log_duration cut-off (only log_duration = 0 disables replay): everything present is sent. *)
-Theorem C12_replayed : forall t now ep st,
+(* Over ALL histories of Relay / Rotate / Restart (clean or crash) / Disconnect / Reconnect / AckPosition / incoming
+   message / CleanupTimer from the start of the sender, under a monotone clock that advances before each relay:
+   the invariant (well-formed encodings, file name > every timestamp inside, increasing names, strictly increasing
+   timestamps across files and current, nothing newer than the clock) holds, hence the facts C12_replayed_general needs. *)
+Theorem C12_history_invariant : forall t now0 eps h,
+  0 < now0 -> rl_hvalid now0 h ->
+  let st := rl_hrun t h (rl_init_st now0 eps) in
+  rl_hinv (rl_hclock now0 h) st /\ rl_name_bound (rl_files st) /\ StronglySorted rl_ts_lt (rl_log_entries st) /\ StronglySorted Z.lt (map fst (rl_files st)).
+Proof. exact rl_history_invariant_init. Qed.
+Print Assumptions C12_history_invariant.
+
+(* the invariant is inductive: from any state satisfying it, along any valid continuation *)
+Theorem C12_history_invariant_step : forall t h c st,
+  rl_hinv c st -> rl_hvalid c h -> rl_hinv (rl_hclock c h) (rl_hrun t h st).
+Proof. exact rl_history_invariant. Qed.
+Print Assumptions C12_history_invariant_step.
+
+(* After Reconnect e (ReplayLog), in ANY state reachable by such a history, the messages sent to e are exactly the
+   persisted entries - of all files present and of current - with timestamp > e's confirmed position whose object e's
+   zone may see, in log (= timestamp) order, and the replay loop reaches its final pass.  No premise about timestamps or
+   file names.  (log_duration = 0 disables replay; ReplayLog applies no other log_duration cut-off: everything present
+   is sent, and C12_cleanup_keeps says what is present.) *)
+Theorem C12_replayed : forall t now0 eps h now ep,
+  0 < now0 -> rl_hvalid now0 h -> rl_ep_dur ep <> 0 ->
+  let st := rl_hrun t h (rl_init_st now0 eps) in
+  let r := rl_replay t now ep st in
+  rl_msgs (rl_rr_out r) = map rl_e_msg (filter (rl_sel t (rl_ep_zone ep) (rl_ep_pos ep)) (rl_log_entries st)) /\ rl_rr_done r = true.
+Proof. exact rl_replayed_history. Qed.
+Print Assumptions C12_replayed.
+
+(* the general statement for arbitrary (also damaged) logs, with the two facts as explicit premises *)
+Theorem C12_replayed_general : forall t now ep st,
   rl_ep_dur ep <> 0 -> rl_name_bound (rl_files st) -> StronglySorted rl_ts_lt (rl_log_entries st) ->
   let r := rl_replay t now ep st in
-  rl_msgs (rl_rr_out r) = map rl_e_msg (filter (rl_sel t (rl_ep_zone ep) (rl_ep_pos ep)) (rl_log_entries st)) /\
-  rl_rr_done r = true.
+  rl_msgs (rl_rr_out r) = map rl_e_msg (filter (rl_sel t (rl_ep_zone ep) (rl_ep_pos ep)) (rl_log_entries st)) /\ rl_rr_done r = true.
 Proof. exact rl_replayed. Qed.
-Print Assumptions C12_replayed.
+Print Assumptions C12_replayed_general.
+
+(* An event relayed while a directly related, non-global target zone is undelivered - no member connected; for the local
+   zone: the member iterated last is disconnected (with the supported <= 2 endpoints per zone: the other member) - reaches
+   PersistMessage and is the last entry of the log afterwards.  (A foreign zone with one connected member gets the event
+   through that member and nothing is persisted: zone-level delivery, by design.) *)
+Theorem C12_persist_complete : forall t c now sec msg st z,
+  rl_hinv c st -> rl_hvalid c [(now, RlHRelay sec msg)] ->
+  In z (rl_relay_zones t sec) -> rl_zglobal t z = false -> rl_directly_related t z = true ->
+  rl_zone_undelivered t (rl_eps st) z ->
+  rl_log_entries (rl_hstep t now (RlHRelay sec msg) st) =
+    rl_log_entries st ++ [{| rl_e_ts := now; rl_e_sec := sec; rl_e_msg := msg |}].
+Proof. exact rl_persist_complete. Qed.
+Print Assumptions C12_persist_complete.
+
+(* Acknowledgements: if the position the peer acknowledges covers only entries it really received, no owed entry is lost *)
+Theorem C12_no_loss_honest_ack : forall t now ep c st p delivered,
+  rl_hinv c st -> rl_ep_dur ep <> 0 ->
+  (forall e, In e (rl_log_entries st) -> rl_can_access t (rl_ep_zone ep) (rl_e_sec e) = true ->
+             rl_ep_pos ep < rl_e_ts e <= p -> In (rl_e_msg e) delivered) ->
+  let ep' := if rl_ep_pos ep <? p then rl_ep_set_pos p ep else ep in
+  forall e, In e (rl_log_entries st) -> rl_ep_pos ep < rl_e_ts e -> rl_can_access t (rl_ep_zone ep) (rl_e_sec e) = true ->
+    In (rl_e_msg e) delivered \/ In (rl_e_msg e) (rl_msgs (rl_rr_out (rl_replay t now ep' st))).
+Proof. exact rl_no_loss_honest_ack. Qed.
+Print Assumptions C12_no_loss_honest_ack.
+
+(* Recorded finding (known_findings: replay-setlogposition-acks-wrong-log): the code itself produces a dishonest
+   acknowledgement.  ReplayLog emits log::SetLogPosition with the name of the SENDER's log file; the peer's
+   SetLogPositionHandler takes it as confirmation of the PEER's log.  Two nodes in the same state: what A emits, handled by
+   B before B's own replay starts, makes B replay nothing although three events are owed. *)
+Theorem C12_setpos_refuted :
+  let stB := rl_w_st rl_w_file in
+  let emitted_by_A := rl_rr_out (rl_replay rl_w_topo 40 rl_w_ep stB) in
+  emitted_by_A = [RlOutMsg (rl_mk_msg 1 10); RlOutPos 21; RlOutMsg (rl_mk_msg 2 20); RlOutMsg (rl_mk_msg 3 30); RlOutPos 41] /\
+  let stB' := rl_feed_acks 1 emitted_by_A stB in
+  option_map rl_ep_pos (rl_get_ep (rl_eps stB') 1) = Some 41 /\
+  (forall ep', rl_get_ep (rl_eps stB') 1 = Some ep' -> rl_msgs (rl_rr_out (rl_replay rl_w_topo 40 ep' stB')) = []) /\
+  length (filter (rl_sel rl_w_topo 1 0) (rl_log_entries stB)) = 3%nat.
+Proof. exact rl_setpos_refuted. Qed.
+Print Assumptions C12_setpos_refuted.
 
 (* Nothing at or below the confirmed position is ever replayed (no premise on the log at all) *)
 Theorem C12_no_resend : forall t now ep st m,
@@ -85,7 +149,8 @@ Print Assumptions C12_restart.
 
 (* Recorded finding (known_findings: corrupt-timestamp-hides-later-entries): on the faithful model one overwritten
    timestamp digit that keeps the entry decodable makes ReplayLog skip the intact later entries of the same file AND
-   of the other file.  C12_replayed excludes it through its visible premise StronglySorted rl_ts_lt (rl_log_entries st). *)
+   of the other file.  C12_replayed_general excludes it through its visible premise StronglySorted rl_ts_lt (rl_log_entries st);
+   C12_replayed speaks about undamaged (reachable) states. *)
 Theorem C12_corrupt_ts_refuted :
   rl_msgs (rl_rr_out (rl_replay rl_w_topo 40 rl_w_ep (rl_w_st rl_w_file))) = [rl_mk_msg 1 10; rl_mk_msg 2 20; rl_mk_msg 3 30] /\
   rl_msgs (rl_rr_out (rl_replay rl_w_topo 40 rl_w_ep (rl_w_st (rl_set_byte rl_w_off 57 rl_w_file)))) = [rl_mk_msg 1 10] /\
